@@ -1,249 +1,76 @@
 """C01 - a step never runs more invocations at once than its worker limit; slots are distinct."""
 from __future__ import annotations
 
-import json
 from typing import Any
 
-from vmc.checks.common import Program, replay_program, run_programs
-from vmc.engine import (
-    Action, BasicRuntime, EngineExec, MonRuntime, RunConfig, gate, make_step, make_workflow,
-    task_outcome,
-)
-from vmc.events import A, B, Done, Resp, Work
-from vmc.explore import Execution
-from workflows import Context
-from workflows.events import StartEvent, StepState, StepStateChanged, StopEvent
-from workflows.retry_policy import retry_policy, stop_after_attempt, wait_fixed
+from vmc.checks.common import replay_program, run_programs
+from vmc.progs import ENGINE_ASSUMPTIONS, Oracle, catalog, to_programs
+from workflows.events import StepState, StepStateChanged
 
 PID = "C01"
 
 
-# ---------------------------------------------------------------------------------- oracle
-def check_quiescent(h: Any) -> None:
+def kind(name: str) -> str:
+    return name.rstrip("0123456789")
+
+
+def on_quiescent(h: Any) -> None:
     for r in h.runners[-1:]:
         for name, ws in r.state.workers.items():
             nw = ws.config.num_workers
             ids = [ip.worker_id for ip in ws.in_progress]
             if len(ids) > nw:
-                h.violate("in_progress_exceeds_limit", {"step_kind": name.rstrip("0123456789")},
+                h.violate("in_progress_exceeds_limit", {"step_kind": kind(name)},
                           f"step {name}: in_progress={ids} num_workers={nw}")
             if len(set(ids)) != len(ids) or any(not (0 <= i < nw) for i in ids):
-                h.violate("slot_not_distinct_or_out_of_range", {"step_kind": name.rstrip("0123456789")},
+                h.violate("slot_not_distinct_or_out_of_range", {"step_kind": kind(name)},
                           f"step {name}: worker ids {ids} num_workers={nw}")
     for name, lst in h.live.items():
         nw = h.limits.get(name)
         if nw is not None and len(lst) > nw:
-            h.violate("live_bodies_exceed_limit", {"step_kind": name.rstrip("0123456789")},
+            h.violate("live_bodies_exceed_limit", {"step_kind": kind(name)},
                       f"step {name}: {len(lst)} live bodies, num_workers={nw}")
 
 
-def check_final(h: Any) -> None:
-    # bodies started while over the limit (checked at every entry)
-    for name, mx in h.max_live.items():
+def final(h: Any, e: Any, state: dict[str, Any]) -> None:
+    for name, mx in h.max_live.items():  # checked at every body entry
         nw = h.limits.get(name)
         if nw is not None and mx > nw:
-            h.violate("live_bodies_exceed_limit", {"step_kind": name.rstrip("0123456789")},
+            h.violate("live_bodies_exceed_limit", {"step_kind": kind(name)},
                       f"step {name}: up to {mx} live bodies, num_workers={nw}")
-    # stream: no second RUNNING for (step, worker) before its NOT_RUNNING; ids in range
     running: set[tuple[str, str]] = set()
-    for ev in h.published:
+    for i, ev in enumerate(h.published):
+        if i in h.restart_marks:
+            running.clear()
         if isinstance(ev, StepStateChanged):
             key = (ev.name, ev.worker_id)
             if ev.step_state == StepState.RUNNING:
                 nw = h.limits.get(ev.name)
                 if key in running:
-                    h.violate("slot_reused_while_running", {"step_kind": ev.name.rstrip("0123456789")},
+                    h.violate("slot_reused_while_running", {"step_kind": kind(ev.name)},
                               f"second RUNNING for {key} before NOT_RUNNING")
                 if nw is not None and not (ev.worker_id.isdigit() and 0 <= int(ev.worker_id) < nw):
-                    h.violate("slot_not_distinct_or_out_of_range", {"step_kind": ev.name.rstrip("0123456789")},
+                    h.violate("slot_not_distinct_or_out_of_range", {"step_kind": kind(ev.name)},
                               f"RUNNING on worker {ev.worker_id}, num_workers={nw}")
                 running.add(key)
             elif ev.step_state == StepState.NOT_RUNNING:
                 running.discard(key)
-        if h.restart_marks and ev is h.restart_marks[0]:
-            running.clear()
 
 
-# -------------------------------------------------------------------------------- programs
-def _limits(wf: Any) -> dict[str, int]:
-    return {n: f._step_config.num_workers for n, f in wf._get_steps().items()}
-
-
-def wf_fan(k: int, w: int, retry: str | None = None, fail_uids: tuple[int, ...] = ()) -> type:
-    async def start(self, ctx, ev, inv):  # noqa: ANN001
-        for i in range(k):
-            ctx.send_event(Work(uid=i))
-        return None
-
-    async def work(self, ctx, ev, inv):  # noqa: ANN001
-        await gate(f"w{ev.uid}.{inv.retry.retry_number}")
-        if ev.uid in fail_uids and inv.retry.retry_number == 0:
-            raise RuntimeError("boom")
-        return Done(uid=ev.uid)
-
-    async def fin(self, ctx, ev, inv):  # noqa: ANN001
-        r = ctx.collect_events(ev, [Done] * k)
-        if r is None:
-            return None
-        return StopEvent(result=sorted(e.uid for e in r))
-
-    pol = None
-    if retry == "zero":
-        pol = retry_policy(wait=wait_fixed(0), stop=stop_after_attempt(3))
-    elif retry == "delay":
-        pol = retry_policy(wait=wait_fixed(1), stop=stop_after_attempt(3))
-    return make_workflow("Fan", [
-        make_step("start", [StartEvent], [Work, None], start),
-        make_step("work", [Work], [Done], work, num_workers=w, retry_policy=pol),
-        make_step("fin", [Done], [StopEvent, None], fin, num_workers=1),
-    ])
-
-
-def wf_collect(w: int) -> type:
-    """collector with num_workers=w and a gate before collect -> stale snapshots / re-runs"""
-
-    async def start(self, ctx, ev, inv):  # noqa: ANN001
-        ctx.send_event(A(uid=1))
-        ctx.send_event(B(uid=2))
-        ctx.send_event(A(uid=3))
-        return None
-
-    async def coll(self, ctx, ev, inv):  # noqa: ANN001
-        await gate(f"c{ev.uid}")
-        r = ctx.collect_events(ev, [A, B, A])
-        if r is None:
-            return None
-        return StopEvent(result=[e.uid for e in r])
-
-    return make_workflow("Coll", [
-        make_step("start", [StartEvent], [A, B, None], start),
-        make_step("coll", [A, B], [StopEvent, None], coll, num_workers=w),
-    ])
-
-
-def wf_wait(w: int) -> type:
-    async def start(self, ctx, ev, inv):  # noqa: ANN001
-        ctx.send_event(Work(uid=0))
-        ctx.send_event(Work(uid=1))
-        ctx.send_event(Work(uid=2))
-        return None
-
-    async def ask(self, ctx, ev, inv):  # noqa: ANN001
-        r = await ctx.wait_for_event(Resp, requirements={"key": str(ev.uid)}, timeout=None,
-                                     waiter_id=f"w{ev.uid}")
-        await gate(f"a{ev.uid}")
-        return Done(uid=r.uid)
-
-    async def fin(self, ctx, ev, inv):  # noqa: ANN001
-        r = ctx.collect_events(ev, [Done] * 3)
-        if r is None:
-            return None
-        return StopEvent(result=sorted(e.uid for e in r))
-
-    return make_workflow("Wait", [
-        make_step("start", [StartEvent], [Work, None], start),
-        make_step("ask", [Work], [Done], ask, num_workers=w),
-        make_step("fin", [Done], [StopEvent, None], fin, num_workers=1),
-    ])
-
-
-def _execute(ex: Execution, mk: Any, scripts: Any = None, resume: bool = False,
-             pair: bool = False) -> tuple[Any, list[Any]]:
-    cfg = RunConfig(on_quiescent=[check_quiescent], pair_release=pair)
-    with EngineExec(ex, cfg) as e:
-        h = e.h
-        h.restart_marks = []
-        cls = mk()
-        wf = cls(timeout=None, runtime=MonRuntime(BasicRuntime()))
-        h.limits = _limits(wf)
-        state = {"hd": wf.run(run_id="r1")}
-        e.consume_stream(state["hd"])
-        if scripts:
-            for sc in scripts(state):
-                e.add_script(sc)
-        if resume:
-            def do_resume() -> None:
-                hd = state["hd"]
-                if hd.is_done():
-                    return
-                snap = json.loads(json.dumps(hd.ctx.to_dict()))
-                hd._external_adapter.abort()  # hard-stop the original run
-                e.loop.drain()
-                for lst in h.live.values():
-                    lst.clear()
-                if h.published:
-                    h.restart_marks.append(h.published[-1])
-                wf2 = cls(timeout=None, runtime=MonRuntime(BasicRuntime()))
-                h.stream_done = False
-                state["hd"] = wf2.run(ctx=Context.from_dict(wf2, snap), run_id="r2")
-                e.consume_stream(state["hd"])
-
-            e.add_script([Action("snapshot+resume", do_resume)])
-        cfg.stop_when = lambda hh: state["hd"].is_done() and hh.stream_done
-        e.drive()
-        check_final(h)
-        out = task_outcome(state["hd"]._result_task)
-        obs = {"outcome": out[0], "value": repr(out[1]), "stuck": e.stuck,
-               "_metrics": {"max_concurrency": h.max_concurrency}}
-        return obs, list(h.violations)
-
-
-def _resp_scripts(state: dict[str, Any]) -> list[list[Action]]:
-    def send(uid: int) -> Action:
-        return Action(f"send Resp{uid}", lambda: state["hd"].ctx.send_event(Resp(uid=uid, key=str(uid))))
-
-    return [[send(0)], [send(1)], [send(2)]]
-
-
-def programs(tier: str) -> list[Program]:
-    ps: list[Program] = []
-    kmax, wmax = (3, 3) if tier == "quick" else (4, 4)
-    for k in range(1, kmax + 1):
-        for w in range(1, wmax + 1):
-            ps.append(Program(f"fan(k={k},w={w})", {"k": k, "w": w},
-                              lambda ex, k=k, w=w: _execute(ex, lambda: wf_fan(k, w)),
-                              min_concurrency=min(k, w)))
-    for k, w in ([(2, 1), (2, 2), (3, 2)] if tier == "quick" else [(2, 1), (2, 2), (3, 2), (3, 3), (4, 2)]):
-        for retry in ("zero", "delay"):
-            ps.append(Program(f"fan_retry(k={k},w={w},{retry})", {"k": k, "w": w, "retry": retry},
-                              lambda ex, k=k, w=w, retry=retry: _execute(
-                                  ex, lambda: wf_fan(k, w, retry, fail_uids=(0, 1))),
-                              min_concurrency=min(k, w)))
-    for w in (1, 2, 3):
-        ps.append(Program(f"collect(w={w})", {"w": w}, lambda ex, w=w: _execute(ex, lambda: wf_collect(w)),
-                          min_concurrency=min(3, w)))
-    for w in (1, 2):
-        ps.append(Program(f"wait(w={w})", {"w": w},
-                          lambda ex, w=w: _execute(ex, lambda: wf_wait(w), scripts=_resp_scripts),
-                          max_dev=(3 if tier == "quick" else 5)))
-    # snapshot + resume at every quiescent point (drives rewind_in_progress)
-    for k, w in [(2, 1), (3, 2)] + ([] if tier == "quick" else [(4, 3)]):
-        ps.append(Program(f"fan_resume(k={k},w={w})", {"k": k, "w": w},
-                          lambda ex, k=k, w=w: _execute(ex, lambda: wf_fan(k, w), resume=True)))
-    ps.append(Program("fan_retry_resume(k=2,w=2,zero)", {},
-                      lambda ex: _execute(ex, lambda: wf_fan(2, 2, "zero", fail_uids=(0,)), resume=True)))
-    ps.append(Program("collect_resume(w=2)", {}, lambda ex: _execute(ex, lambda: wf_collect(2), resume=True)))
-    # simultaneous completions (two gates released in the same loop iteration)
-    ps.append(Program("fan_pair(k=3,w=3)", {}, lambda ex: _execute(ex, lambda: wf_fan(3, 3), pair=True)))
-    if tier != "quick":
-        ps.append(Program("collect_pair(w=3)", {}, lambda ex: _execute(ex, lambda: wf_collect(3), pair=True)))
-        ps.append(Program("fan_retry_pair(k=3,w=2,zero)", {},
-                          lambda ex: _execute(ex, lambda: wf_fan(3, 2, "zero", fail_uids=(0, 1)), pair=True)))
-    return ps
-
+ORACLE = Oracle(on_quiescent=on_quiescent, final=final)
 
 RULE = ("every gate-release / external-send / timer / snapshot+resume order of generated fan-out, retry, "
-        "collect and wait workflows through the real control loop on a virtual event loop; an execution is "
+        "collect, wait, chain workflows through the real control loop on a virtual event loop; an execution is "
         "non-trivial when it deviates from the default (oldest-first) schedule at least once; distinct = "
         "distinct choice lists")
 
 
+def programs(tier: str) -> list[Any]:
+    return to_programs(catalog(tier), ORACLE)
+
+
 def run(tier: str, seed: int) -> Any:
-    return run_programs(PID, programs(tier), RULE, seed, assumptions=[
-        "llama_index_instrumentation replaced by a no-op stand-in (telemetry only)",
-        "async steps only; thread-pool (sync) steps are outside the cooperative scheduler",
-        "task switches only at real suspension points; choice points at loop quiescence",
-    ])
+    return run_programs(PID, programs(tier), RULE, seed, assumptions=ENGINE_ASSUMPTIONS)
 
 
 def replay(rec: dict[str, Any]) -> tuple[bool, str]:
